@@ -122,6 +122,17 @@ CHECKS = {
              "and to the file written by `--diff`, decoded independently, for relabeled meshes with a known field delta.",
         note=TB + "Unsigned integer and string fields are not generated (subtraction undefined / wrapping).",
         technique="Coq proof of the diff model + model/implementation correspondence", ref="7 (C14)"),
+    "C19": dict(
+        text="PARTIAL. Proved: a static aliasing check on effect programs over a store of arrays is sound (a safe program never "
+             "modifies an array that existed before it ran), and the transcribed write sites of the library pass it; the pinned "
+             "to_meshio pixel/voxel reordering is refuted (it wrote through an alias; repaired). Observed, not proved: random "
+             "histories of 2-8 public operations on shared objects with byte snapshots of every input array before/after each "
+             "step, hashes/mtimes of input files, directory listings, verdict equality for fresh / re-used comparators and "
+             "predicates and for a second process with another hash seed.",
+        note=TB + "That no other numpy/library call writes into its inputs, that nothing else is written to disk and process "
+             "independence cannot be expressed in the pure model: they are observed on the generated histories only. The effect "
+             "programs are hand-transcribed from the source.",
+        technique="Coq proof of a static aliasing check on transcribed write sites + history-based snapshot observation", ref="7 (C19)"),
 }
 
 ALL = [f"C{i:02d}" for i in range(1, 21)]
